@@ -53,7 +53,7 @@ Proof.
   destruct (run_refines (create (g_kt g) (g_n g)) ∅ (g_ops g) HI0 HR0 Hwf) as (s & Hr & HI & HR & Ht & Hnb).
   change (kt (create (g_kt g) (g_n g))) with (g_kt g) in Ht.
   change (nb (hx (create (g_kt g) (g_n g)))) with (g_n g) in Hnb.
-  rewrite Hr in Hrun. apply andb_prop in Hrun as [Hrun Hlen]. apply andb_prop in Hrun as [Himg Hexp].
+  rewrite Hr in Hrun. apply andb_prop in Hrun as [Hrun _]. apply andb_prop in Hrun as [Hrun Hlen]. apply andb_prop in Hrun as [Himg Hexp].
   exists s, (fst (spec_run ∅ (g_ops g))). split; [exact HI|]. split; [exact HR|]. split; [reflexivity|].
   split.
   { destruct (render s) as [imgs| | |]; try discriminate Himg. f_equal. apply imgs_eqb_eq. exact Himg. }
